@@ -50,6 +50,8 @@ pub struct Mon {
     /// lookups that were already in the get buffer when the counters were last cleared
     ring_carry: u64,
     drops_since_clear: u64,
+    /// on_evict callbacks for victims and swept entries (not the clear/close drain) since the last clear
+    evictions_since_clear: i64,
     any_error: bool,
     closed_ok: bool,
     clear_returned_clean: bool,
@@ -78,7 +80,7 @@ impl Mon {
             case, cfg, flags, item_size: item_size as i64,
             spec: HashMap::new(), val_key: HashMap::new(), val_cost: HashMap::new(), accepted: HashSet::new(),
             cb_count: HashMap::new(), overwritten: HashSet::new(), before_clear: HashSet::new(), cleared_ok: HashMap::new(), clear_epoch: 0, start_epoch: HashMap::new(), clear_on_closed: HashSet::new(), at_clear_call: HashMap::new(), started_after_close: HashSet::new(),
-            cur_op: HashMap::new(), sent_by: HashMap::new(), after_wait: Vec::new(), lookups_since_clear: 0, ring_carry: 0, drops_since_clear: 0,
+            cur_op: HashMap::new(), sent_by: HashMap::new(), after_wait: Vec::new(), lookups_since_clear: 0, ring_carry: 0, drops_since_clear: 0, evictions_since_clear: 0,
             any_error: false, closed_ok: false, clear_returned_clean: false, straddled: false, inserted_after_clear: false, hits: 0,
             prev: None, evicted_once: HashSet::new(), conf_seen: HashMap::new(), in_tick: false, tick_time: 0,
         }
@@ -350,6 +352,9 @@ impl Mon {
                 let l = e.join("+");
                 self.hit("C08", format!("value {} was handed to callbacks more than once: {}", v, l));
             }
+            if kind == "evict" && !(step.starts_with("pr clear") || step.starts_with("pr stop")) {
+                self.evictions_since_clear += 1;
+            }
             if kind == "evict" || kind == "reject" {
                 let k: u64 = parts[1].parse().unwrap_or(0);
                 let cost: i64 = parts[4].parse().unwrap_or(0);
@@ -476,6 +481,10 @@ impl Mon {
                 if *c != b.iter().sum::<i64>() {
                     self.hit("C17", format!("histogram count {} differs from the sum of its buckets", c));
                 }
+                // every eviction of an entry admitted with metrics on adds one life-expectancy sample
+                if self.flags.quiescent_profile && *c != self.evictions_since_clear {
+                    self.hit("C17", format!("{} evictions (victims and swept entries) since the last clear but the life-expectancy histogram holds {} samples", self.evictions_since_clear, c));
+                }
             }
         }
         let _ = now;
@@ -504,7 +513,24 @@ impl Mon {
         self.ring_carry = s.ring.len() as u64;
         self.lookups_since_clear = 0;
         self.drops_since_clear = 0;
+        self.evictions_since_clear = 0;
         self.spec.clear();
+    }
+
+    /// C17: Metrics::ratio() against the counters of the same quiescent snapshot
+    pub fn ratio(&mut self, s: &CacheSnap<u64>, ratio: Option<f64>) {
+        match (&s.metrics, ratio) {
+            (Some(m), Some(r)) => {
+                let (h, mi) = (m[0], m[1]);
+                let exp = if h == 0 && mi == 0 { 0.0 } else { (h as f64) / ((h + mi) as f64) };
+                if r != exp {
+                    self.hit("C17", format!("ratio() returned {} but hits {} / (hits {} + misses {}) is {}", r, h, h, mi, exp));
+                }
+            }
+            (None, None) => {}
+            (Some(_), None) => self.hit("C17", "ratio() returned None although metrics are enabled".to_string()),
+            (None, Some(r)) => self.hit("C17", format!("ratio() returned {} although metrics are disabled", r)),
+        }
     }
 
     pub fn hung(&mut self, line: &str) {
